@@ -53,6 +53,20 @@ def main(run):
     run.require("ixai/utils/tracker/sliding_window.py:SlidingWindowTracker.update",
                 "ixai/utils/tracker/sliding_window.py:SlidingWindowTracker.var")
     rnd = random.Random(run.shard_seed)
+    # two trackers of the same size fed alternately with different streams must not influence each other
+    for k in (1, 2, 5, 8):
+        t1, t2 = SlidingWindowTracker(k), SlidingWindowTracker(k)
+        v1, v2 = [], []
+        for i in range(4 * k + 2):
+            a, b = rnd.uniform(0, 1), rnd.uniform(100, 101)
+            t1.update(a); v1.append(a)
+            t2.update(b); v2.append(b)
+            run.ok(2, kind="interleaved-twins")
+            for tr, vs, nm in ((t1, v1, "first"), (t2, v2, "second")):
+                w = vs[-k:]
+                if abs(tr.mean - sum(w) / len(w)) > 1e-9 * 101:
+                    run.violation("window-mean", f"k={k}: {nm} of two interleaved trackers reports mean {tr.mean!r}, its own last values give {sum(w) / len(w)!r}",
+                                  {"k": k, "interleaved": True, "values": vs})
     ks = [1, 2, 3, 4, 5, 8, 13, 64] + ([100, 257] if run.tier == "thorough" else [])
     reps = 3 if run.tier == "quick" else 6
     for k in ks:
